@@ -163,8 +163,6 @@ def show(n, depth=0):
         return "..."
     k = n.get("k")
     d = depth + 1
-    if n.get("_from"):          # normal form: a propagated temporary keeps its source name in reports
-        return n["_from"].split("@")[0]
     if k == "call":
         f = n.get("fn") or ("(*%s)" % show(n.get("ind"), d))
         return "%s(%s)" % (f, ", ".join(show(a, d) for a in n["args"]))
@@ -274,6 +272,7 @@ class Function:
         self.params = d.get("params", [])
         self.cfg_failed = d.get("cfg_failed", False)
         self.normalized = bool(d.get("inlined") or d.get("copyprop"))   # differs from the function as written
+        self.inlined = list(d.get("inlined") or [])
         self.blocks = {}
         self.entry = d.get("entry")
         self.exit = d.get("exit")
